@@ -7,9 +7,9 @@
 EXTENDS Deadline, Json, IOUtils
 Trace == ndJsonDeserialize(IOEnv.TRACE)
 VARIABLES l, failed, stat
-tvars == <<l, failed, stat, hpos, ctxDone, cancelled, released>>
-Stat0 == [timeouts |-> 0, wellformed |-> 0, malformed |-> 0, unspecified |-> 0, cancels |-> 0, blocked |-> 0]
-TInit == l = 1 /\ failed = {} /\ stat = Stat0 /\ hpos = "running" /\ ctxDone = FALSE /\ cancelled = FALSE /\ released = FALSE
+tvars == <<l, failed, stat, hpos, ctxDone, cancelled, released, via, fdone>>
+Stat0 == [timeouts |-> 0, wellformed |-> 0, malformed |-> 0, unspecified |-> 0, cancels |-> 0, blocked |-> 0, proxied |-> 0]
+TInit == l = 1 /\ failed = {} /\ stat = Stat0 /\ hpos = "running" /\ ctxDone = FALSE /\ cancelled = FALSE /\ released = FALSE /\ via = "local" /\ fdone = FALSE
 
 TTimeout ==
   /\ l <= Len(Trace) /\ Trace[l].ev = "Timeout"
@@ -26,7 +26,7 @@ TTimeout ==
         /\ stat' = [stat EXCEPT !.timeouts = @ + 1, !.wellformed = @ + (IF WellFormed(s) THEN 1 ELSE 0),
                                 !.malformed = @ + (IF ~WellFormed(s) /\ ~Unspecified(s) THEN 1 ELSE 0),
                                 !.unspecified = @ + (IF Unspecified(s) THEN 1 ELSE 0)]
-  /\ l' = l + 1 /\ UNCHANGED <<hpos, ctxDone, cancelled, released>>
+  /\ l' = l + 1 /\ UNCHANGED <<hpos, ctxDone, cancelled, released, via, fdone>>
 
 \* the observed run must be a behaviour of CSpec that reaches the goal of CancelReleases within the wait; the blocked call
 \* must return an error that is not io.EOF (io.EOF tells the handler the client finished its stream: it would go on and
@@ -48,8 +48,9 @@ TCancel ==
                      \cup (IF e.point \in {"blockedRecv", "blockedFirstRecv", "blockedSend"} /\ e.reached /\ ~(e.released /\ e.relerr /\ ~e.releof) THEN {"CancelReleases"} ELSE {})
                      \cup (IF e.donebefore THEN {"SpuriousDone"} ELSE {})
      IN /\ failed' = failed \cup {<<e.case, l, f>> : f \in bad}
-        /\ stat' = [stat EXCEPT !.cancels = @ + 1, !.blocked = @ + (IF e.point \in {"blockedRecv", "blockedFirstRecv", "blockedSend"} /\ e.reached THEN 1 ELSE 0)]
-  /\ l' = l + 1 /\ UNCHANGED <<hpos, ctxDone, cancelled, released>>
+        /\ stat' = [stat EXCEPT !.cancels = @ + 1, !.blocked = @ + (IF e.point \in {"blockedRecv", "blockedFirstRecv", "blockedSend"} /\ e.reached THEN 1 ELSE 0),
+                                !.proxied = @ + (IF e.via = "proxied" THEN 1 ELSE 0)]
+  /\ l' = l + 1 /\ UNCHANGED <<hpos, ctxDone, cancelled, released, via, fdone>>
 
 TSpec == TInit /\ [][TTimeout \/ TCancel]_tvars
 Report == l > Len(Trace) =>
